@@ -683,6 +683,139 @@ def c09(ctx):
     levels_check(ctx, "C09")
 
 
+# --------------------------------------------------------------------------- C16
+@check("C16")
+def c16(ctx):
+    drv = ctx.build()
+    for (m, h) in ([(2, 1), (3, 2)] if ctx.quick else [(2, 1), (3, 2), (4, 2), (3, 3)]):
+        r = ctx.model_check("Filter", tlc.fill("MC_Filter.cfg.tmpl", M=m, H=h, BugOtherSeeds=models.F, BugBuildFromVersioned=models.F),
+                            timeout=900)
+        models.expect_ok(ctx, r, "Filter M=%d H=%d" % (m, h))
+    st = {}
+    for sw in ("BugOtherSeeds", "BugBuildFromVersioned"):
+        kw = dict(M=3, H=2, BugOtherSeeds=models.F, BugBuildFromVersioned=models.F)
+        kw[sw] = models.T
+        rr = ctx.model_check("Filter", tlc.fill("MC_Filter.cfg.tmpl", **kw), timeout=600, expect_violation=True)
+        models.expect_violation(ctx, rr, sw)
+        st[sw] = "NoFalseNegative"
+    ctx.cov["deviation_switches"] = st
+    total = dict(traces=0, events=0, accepted=0, nontrivial=0, members_checked=0)
+    for i in range(2 if ctx.quick else 6):
+        out = os.path.join(ctx.scratch, "filt-%d" % i)
+        rc, o = ctx.drv(drv, ["filt", "-seed", ctx.seed * 10 + i, "-out", out] + (["-big"] if (i == 0 or not ctx.quick) else []),
+                        timeout=1800)
+        if rc != 0:
+            hf = common.hard_failures(o)
+            if hf:
+                p = ctx.save_replay("c16-%s-%d.txt" % (hf[0][0], i), [hf[0][1]])
+                ctx.violation(p, "%s in pkg/filter / table recovery: %s" % hf[0], match={"kind": hf[0][0]})
+                continue
+            raise Machinery("filt driver failed: " + o[-1500:])
+        tp = os.path.join(out, "traces.ndjson")
+        evs = [json.loads(l) for l in open(tp)]
+        r = tlc.validate_trace("TraceFilter", open(os.path.join(tlc.SPECS, "TraceFilter.cfg")).read(), tp)
+        ctx.states += r["distinct"]
+        ctx.transitions += r["states"]
+        if r["machinery_error"]:
+            raise Machinery("TraceFilter failed to run: " + r["out"][-1200:])
+        total["traces"] += len(evs)
+        total["events"] += len(evs)
+        total["members_checked"] += sum(e["members"] for e in evs)
+        total["nontrivial"] += sum(1 for e in evs if e["n"] > 1)
+        if r["accepted"]:
+            total["accepted"] += len(evs)
+        else:
+            bad = evs[r["highwater"] - 1]
+            rp = ctx.save_replay("c16-%d.ftrace.ndjson" % i, [json.dumps(e) for e in evs])
+            ctx.violation(rp, "a filter denies a key it was built from: %s" % json.dumps(bad), match={"kind": "false-negative"})
+        ctx.sample(evs[len(evs) // 2])
+    std_cov(ctx, total, "entry sets of 1..50000 entries (sizes 1,2,3,7,8,9,31,100,1000,10000,50000), five key shapes "
+                        "(plain, containing '@', binary, 300-byte prefix, 1-2 bytes), 1-4 versions per key: filter.Build then "
+                        "Contains for the user key of every entry; and the same sets flushed to a table, handles rebuilt "
+                        "by recovery, every stored key looked up; aggregate events validated by TLC against "
+                        "TraceFilter.tla; non-trivial = more than one entry")
+    ctx.assumptions += ["the property is essentially about a pure function: the model contributes the contract for arbitrary "
+                        "hash functions and the ParseKey pairing, the real hashing is exercised on generated sets"]
+
+
+# --------------------------------------------------------------------------- C11
+@check("C11")
+def c11(ctx):
+    drv = ctx.build()
+
+    def ccfg(w, ml, me, fits, on=()):
+        kw = dict(W=w, MAXLEN=ml, MAXENTRIES=me, FITS=models.T if fits else models.F)
+        for sname in ("BugLcpAgainstFirst", "BugTombVersionSwapped"):
+            kw[sname] = models.T if sname in on else models.F
+        return tlc.fill("MC_Codec.cfg.tmpl", **kw)
+
+    for b in ([(2, 3, 2)] if ctx.quick else [(2, 3, 2), (2, 2, 3), (2, 4, 2)]):
+        r = ctx.model_check("Codec", ccfg(b[0], b[1], b[2], True), timeout=1800)
+        models.expect_ok(ctx, r, "Codec %s" % (b,))
+    st = {}
+    rr = ctx.model_check("Codec", ccfg(1, 2, 2, False), timeout=600, expect_violation=True)
+    models.expect_violation(ctx, rr, "width-limited length fields (D11)")
+    st["lengths >= 2^W (defect D11)"] = "RoundTrip"
+    for sw, b in (("BugLcpAgainstFirst", (2, 2, 3)), ("BugTombVersionSwapped", (2, 3, 2))):
+        rr = ctx.model_check("Codec", ccfg(b[0], b[1], b[2], True, on=(sw,)), timeout=900, expect_violation=True)
+        models.expect_violation(ctx, rr, sw)
+        st[sw] = "RoundTrip"
+    r = ctx.model_check("Pool", tlc.fill("MC_Pool.cfg.tmpl", BugReturnAlias=models.F), timeout=600)
+    models.expect_ok(ctx, r, "Pool")
+    rr = ctx.model_check("Pool", tlc.fill("MC_Pool.cfg.tmpl", BugReturnAlias=models.T), timeout=600, expect_violation=True)
+    models.expect_violation(ctx, rr, "BugReturnAlias")
+    st["BugReturnAlias (defect D10)"] = "ResultStable"
+    ctx.cov["deviation_switches"] = st
+    total = dict(traces=0, events=0, accepted=0, nontrivial=0, known_truncations=0)
+
+    def one(i):
+        out = os.path.join(ctx.scratch, "codec-%d" % i)
+        rc, o = ctx.drv(drv, ["codec", "-seed", ctx.seed * 10 + i, "-n", 150 if ctx.quick else 600, "-out", out], timeout=1800)
+        return i, out, rc, o
+
+    for i, out, rc, o in ctx.par(one, range(2 if ctx.quick else 6), workers=2):
+        if rc != 0:
+            hf = common.hard_failures(o)
+            if hf:
+                p = ctx.save_replay("c11-%s-%d.txt" % (hf[0][0], i), [hf[0][1]])
+                ctx.violation(p, "%s in the encoders: %s" % hf[0], match={"kind": hf[0][0]})
+                continue
+            raise Machinery("codec driver failed: " + o[-1500:])
+        evs = [json.loads(l) for l in open(os.path.join(out, "traces.ndjson"))]
+        keep = []
+        for e in evs:
+            if not e["equal"] and e["ev"] == "RoundTrip" and e["codec"] in ("Data", "Index") and e["maxlen"] >= 65536:
+                total["known_truncations"] += 1
+                rp = ctx.save_replay("c11-known-d11.json", e)
+                ctx.violation(rp, "truncation", match={"kind": "codec-truncation", "len_ge": 65536})
+                continue
+            keep.append(e)
+        tp = os.path.join(out, "judged.ndjson")
+        open(tp, "w").write("\n".join(json.dumps(e) for e in keep) + "\n")
+        r = tlc.validate_trace("TraceCodec", open(os.path.join(tlc.SPECS, "TraceCodec.cfg")).read(), tp)
+        ctx.states += r["distinct"]
+        ctx.transitions += r["states"]
+        if r["machinery_error"]:
+            raise Machinery("TraceCodec failed to run: " + r["out"][-1200:])
+        total["traces"] += len(keep)
+        total["events"] += len(evs)
+        total["nontrivial"] += sum(1 for e in keep if e["maxlen"] > 1 or e["ev"] == "Stable")
+        if r["accepted"]:
+            total["accepted"] += len(keep)
+        else:
+            bad = keep[r["highwater"] - 1]
+            rp = ctx.save_replay("c11-%d.ctrace.ndjson" % i, [json.dumps(e) for e in keep])
+            ctx.violation(rp, "an encoding does not round-trip / is not stable: %s" % json.dumps(bad), match={"kind": "codec"})
+        ctx.sample(keep[len(keep) // 3])
+    std_cov(ctx, total, "entry lists generated from the length classes of the format (key/value lengths 0,1,2,15,255,256,300 and "
+                        "65534..70000; shared prefix none/partial/full; tombstone; versions 0,1,7,MaxInt64,-1; binary bytes) "
+                        "pushed through Data, Index, Footer, Meta, table.Build + recovery-style decode and WAL.Write/Read, "
+                        "compared field by field; and result stability: returned slices compared with private copies "
+                        "while four goroutines encode and write wal records; judged by TLC against TraceCodec.tla")
+    ctx.assumptions += ["byte strings are sampled per length class, not enumerated; TLA+ contributes the case analysis "
+                        "(Codec.tla) and the buffer-ownership protocol (Pool.tla), not byte-level reasoning"]
+
+
 # --------------------------------------------------------------------------- C17
 @check("C17")
 def c17(ctx):
